@@ -1,4 +1,5 @@
 import Casm.Model.Bits
+import Casm.Model.Show
 /-! casm-model: answers the line protocol from the Lean model's executable definitions. -/
 open Casm
 
@@ -31,6 +32,26 @@ def step (line : String) : String :=
       | .error .outOfRange => "err outOfRange"
       | .error .noDefiniteSize => "err noDefiniteSize"
     | _, _, _ => "bad-op"
+  | ["expr", t] =>
+    match parseExprText (unhexText t) with
+    | .error e => s!"parse-err {e}"
+    | .ok (e, rest) =>
+      let over := (dropLB rest).isEmpty
+      let r := match eval dummyEnv [] e with
+        | .ok (v, _) => s!"ok {showValue v}"
+        | .error m => s!"err {m}"
+      s!"{showExpr e} | {over} | {r}"
+  | ["tok", t] =>
+    let toks := tokenize (unhexText t)
+    " ".intercalate (toks.map fun tk =>
+      let len := if tk.kind == .Error then Gen.errorTokenLen else utf8Len tk.text
+      s!"{Gen.tokKindName tk.kind}:{len}")
+  | ["lit", t] =>
+    match excerptAsBigint (unhexText t) with
+    | .ok b => s!"ok {showBI' b}"
+    | .error .invalidDigits => "err invalid digits"
+    | .error .invalidValue => "err invalid value"
+    | .error .empty => "panic"
   | _ => "bad-op"
 
 partial def loop (h : IO.FS.Stream) (out : IO.FS.Stream) : IO Unit := do
